@@ -162,6 +162,32 @@ def effects(ctx, func, _seen=None):
     return out
 
 
+def helper_any(ctx, func, pred, _seen=None):
+    """does pred(node, g) hold for some own node of func or of a rule-local helper it (transitively) calls?"""
+    _seen = _seen if _seen is not None else set()
+    if func.qualname in _seen:
+        return False
+    _seen.add(func.qualname)
+    for n in func.own_nodes():
+        if pred(n, func):
+            return True
+        if isinstance(n, ast.Call) and isinstance(n.func, ast.Name):
+            callee = deriv(ctx).local_func(n.func.id, func)
+            if callee is not None and helper_any(ctx, callee, pred, _seen):
+                return True
+    return False
+
+
+def calls_local_helper(ctx, func, cfgnode, pred):
+    """does this CFG node call a rule-local helper h with helper_any(h, pred)?"""
+    for c in calls_at(cfgnode):
+        if isinstance(c.func, ast.Name):
+            callee = deriv(ctx).local_func(c.func.id, func)
+            if callee is not None and helper_any(ctx, callee, pred):
+                return True
+    return False
+
+
 def node_effects(ctx, func, cfgnode):
     """status methods possibly invoked when this CFG node executes"""
     out = set()
@@ -206,6 +232,56 @@ def strip_sorters(ctx, func, e):
         else:
             break
     return e
+
+
+# ---------------------------------------------------------------------------
+# canonical text: aliases replaced by their access path, remaining locals by placeholders
+# ---------------------------------------------------------------------------
+
+def _subst_paths(ctx, f, orig, cp):
+    """walk orig and its clean copy cp in parallel; where an expression of orig resolves to a canonical access path
+    (E, E.C, E.V0, E.quota, ...) replace the corresponding node of cp by that path"""
+    if isinstance(orig, (ast.Name, ast.Attribute)) and isinstance(getattr(orig, 'ctx', None), ast.Load):
+        p = ctx.canon(orig, f)
+        if p and (p == 'E' or p.startswith('E.')):
+            return ast.parse(p, mode='eval').body
+    for fld, ov in ast.iter_fields(orig):
+        cv = getattr(cp, fld, None)
+        if isinstance(ov, ast.AST) and isinstance(cv, ast.AST):
+            setattr(cp, fld, _subst_paths(ctx, f, ov, cv))
+        elif isinstance(ov, list) and isinstance(cv, list) and len(ov) == len(cv):
+            for i, (o_, c_) in enumerate(zip(ov, cv)):
+                if isinstance(o_, ast.AST) and isinstance(c_, ast.AST):
+                    cv[i] = _subst_paths(ctx, f, o_, c_)
+    return cp
+
+
+def ctext(ctx, f, node):
+    """text of an expression/statement of f that is insensitive to the spelling of locals: every sub-expression that
+    resolves to a canonical access path (an alias such as `V0`, `C`, or `self.E.quota`) is replaced by the path, every
+    other local / comprehension variable by a placeholder numbered in order of first occurrence"""
+    from ..model import alpha_texts, func_chain, _bound_names
+    src = ast.unparse(node)
+    cp = ast.parse(src).body[0]
+    if isinstance(node, ast.expr):
+        cp = cp.value
+    cp = _subst_paths(ctx, f, node, cp)
+    ast.fix_missing_locations(cp)
+    names = set()
+    for fn in func_chain(f):
+        names |= _bound_names(fn)
+    names -= {'E', 'self', 'cls'}
+    return alpha_texts([cp], [], extra_names=names, drop_docstring=False)[0]
+
+
+def ctext_ref(src, locals_=()):
+    """the same normal form for a reference fragment written with canonical paths (`E.C.hopeful()`, `E.V0`);
+    locals_ names the free locals of the fragment"""
+    from ..model import alpha_texts
+    t = ast.parse(src).body[0]
+    if isinstance(t, ast.Expr):
+        t = t.value
+    return alpha_texts([t], [], extra_names=set(locals_), drop_docstring=False)[0]
 
 
 def loop_var(for_node):
